@@ -272,4 +272,47 @@ proof fn lemma_walk_in(g: Seq<Node>, vis: Set<u64>, t: u64, p: Seq<u64>, n: int)
     }
 }
 
+spec fn from_root(g: Seq<Node>, root: u64, v: u64) -> bool { v == root || reach_g(g, root, v) }
+/// invariant of the ancestor search: what is collected is reachable from the root, what is visited is the root or reachable from it,
+/// and every visited vertex off the search path has all its dependencies collected
+spec fn anc_inv(g: Seq<Node>, anc: Set<u64>, vis: Set<u64>, stack: Set<u64>, root: u64) -> bool {
+    &&& forall|x: u64| anc.contains(x) ==> reach_g(g, root, x)
+    &&& forall|v: u64| vis.contains(v) ==> from_root(g, root, v)
+    &&& forall|i: int, d: u64| 0 <= i < g.len() && vis.contains(#[trigger] g[i].id) && !stack.contains(g[i].id) && #[trigger] g[i].depends_on@.contains(d) ==> anc.contains(d)
+}
+proof fn lemma_walk_append(g: Seq<Node>, root: u64, k: int, d: u64)
+    requires 0 <= k < g.len(), g[k].depends_on@.contains(d), from_root(g, root, g[k].id)
+    ensures reach_g(g, root, d)
+{
+    if g[k].id == root { lemma_walk1(g, k, d); }
+    else {
+        let p = choose|p: Seq<u64>| is_walk(g, p) && p[0] == root && p.last() == g[k].id;
+        let q = p.push(d);
+        assert forall|i: int| 0 <= i < q.len() - 1 implies edge_g(g, q[i], #[trigger] q[i + 1]) by {
+            if i == p.len() - 1 { assert(q[i] == p.last()); assert(q[i + 1] == d); assert(edge_g(g, g[k].id, d)); }
+            else { assert(q[i] == p[i]); assert(q[i + 1] == p[i + 1]); assert(edge_g(g, p[i], p[i + 1])); }
+        }
+        assert(is_walk(g, q) && q[0] == root && q.last() == d);
+    }
+}
+/// with nothing on the search path, everything reachable from the (visited) root has been collected
+proof fn lemma_anc_complete(g: Seq<Node>, anc: Set<u64>, vis: Set<u64>, root: u64, x: u64)
+    requires anc_inv(g, anc, vis, Set::<u64>::empty(), root), vis.contains(root), anc.subset_of(vis), reach_g(g, root, x)
+    ensures anc.contains(x)
+{
+    let p = choose|p: Seq<u64>| is_walk(g, p) && p[0] == root && p.last() == x;
+    lemma_anc_walk(g, anc, vis, root, p, p.len() - 1);
+}
+proof fn lemma_anc_walk(g: Seq<Node>, anc: Set<u64>, vis: Set<u64>, root: u64, p: Seq<u64>, n: int)
+    requires anc_inv(g, anc, vis, Set::<u64>::empty(), root), vis.contains(root), anc.subset_of(vis), is_walk(g, p), p[0] == root, 1 <= n <= p.len() - 1
+    ensures anc.contains(p[n])
+    decreases n
+{
+    if n > 1 { lemma_anc_walk(g, anc, vis, root, p, n - 1); }
+    let j = n - 1;
+    assert(edge_g(g, p[j], p[j + 1]));
+    let i = choose|i: int| 0 <= i < g.len() && g[i].id == p[j] && g[i].depends_on@.contains(p[j + 1]);
+    assert(vis.contains(g[i].id));
+}
+
 } // verus!
